@@ -12,6 +12,7 @@ import (
 	"os"
 	"os/exec"
 	"path/filepath"
+	"runtime/debug"
 	"strconv"
 	"strings"
 	"sync"
@@ -446,6 +447,7 @@ func c05RunCase(t *rapid.T, rec *vfstat.Recorder, cs *c05Case) {
 
 func c05Test(t *testing.T, name string, kinds []string, modes []string, maxClients int) {
 	c05AWSEnv()
+	debug.SetGCPercent(400) // large values make garbage; the collector's madvise traffic dominated otherwise
 	rec := vfstat.New(name)
 	defer rec.Flush()
 	c05FlushOnExit = func() { rec.Flush(); c05PoolStop(true) }
